@@ -11,10 +11,13 @@ NOT decided: soundness/completeness of the SPARQL against arbitrary graphs, valu
 import ast
 import re
 
-from ..astutil import calls_in, call_name, where
+from ..astutil import calls_in, call_name, where, local_assignments
+from ..cfg import build_cfg
+from ..logic import known
+from .c10 import _strip_format_module
 from ..dataflow import private_closure
 from ..fold import Folder, format_tables, Unfoldable
-from ..symtext import effect_calls
+from ..symtext import effect_calls, Expander
 from ..model import AnalysisError, unparse, walk_no_nested
 
 DECIDED = [
@@ -56,19 +59,18 @@ def run(prog, rep):
                 raise AnalysisError("%s.%s vanished" % (cname, meth))
             rep.saw_function(f)
             alt = None
-            env = {}
-            for n in ast.walk(f.node):       # breadth first: top level statements in source order
-                if isinstance(n, ast.Assign) and isinstance(n.targets[0], ast.Name):
-                    v = fd.try_fold(n.value, f.module, env=env)
-                    if isinstance(v, str):
-                        env[n.targets[0].id] = v
-                        a = alternation(v)
-                        if a and alt is None and ":" not in v.split("(")[0]:
-                            alt = a
-                if isinstance(n, ast.Call) and call_name(n) == "re.compile" and n.args:
-                    v = fd.try_fold(n.args[0], f.module, env=env)
-                    if isinstance(v, str) and alternation(v) and (alt is None or "value" not in v):
-                        if "value:" not in v:
+            x = Expander(f, inline=prog)
+            for st in walk_no_nested(f.node):
+                if not (isinstance(st, ast.Assign) and isinstance(st.targets[0], ast.Subscript) and isinstance(st.targets[0].slice, ast.Constant)):
+                    continue
+                vx = x.expand(st.value)
+                for c in ast.walk(vx):
+                    if isinstance(c, ast.Call) and isinstance(c.func, ast.Attribute) and c.func.attr in ("findall", "finditer", "search", "match", "compile") and c.args:
+                        pat = c.args[0]
+                        if isinstance(pat, ast.Call) and isinstance(pat.func, ast.Attribute) and pat.func.attr == "compile" and pat.args:
+                            pat = pat.args[0]
+                        v = fd.try_fold(pat, f.module)
+                        if isinstance(v, str) and alternation(v) and alt is None:
                             alt = alternation(v)
             want = set(tabs[fname]["_rdf_map"]) - ({"value"} if fname == "Property" else set())
             if alt is None:
@@ -119,7 +121,7 @@ def run(prog, rep):
     maps = effect_calls(prog, pq, lambda c: isinstance(c.func, ast.Attribute) and c.func.attr == "rdf_map")
     for fname, var in (("Document", "Doc"), ("Section", "Sec"), ("Property", "Prop")):
         mine = [e for e in maps if any(p and ("'%s' in " % var) in t for t, p in e.guards())]
-        used = sorted(set(unparse(e.call.func.value) for e in mine))
+        used = sorted(set(_strip_format_module(prog, e.func, unparse(e.call.func.value)) for e in mine))
         rep.check(used == [fname], "TAB-10", "predicates of %s come from %s.rdf_map" % (var, fname), str(used),
                   "_prepare_query maps the %s attributes through %s instead of %s.rdf_map" % (var, used, fname), pq.where,
                   witness="a query on a %s attribute builds the predicate of another kind (or none) and matches nothing" % fname)
@@ -137,8 +139,8 @@ def run(prog, rep):
     except Unfoldable:
         keys = None
     rep.check(keys == ["Doc", "Sec", "Prop"], "KEY-1", "possible_q_dict_keys", str(keys), "possible_q_dict_keys is %s" % (keys,), bc.module.path)
-    read = set(n.left.value for n in ast.walk(pq.node) if isinstance(n, ast.Compare) and isinstance(n.left, ast.Constant)
-               and isinstance(n.ops[0], ast.In) and "q_dict" in unparse(n.comparators[0]))
+    read = set(n.left.value for h in private_closure(pq) for n in ast.walk(h.node) if isinstance(n, ast.Compare) and isinstance(n.left, ast.Constant)
+               and isinstance(n.ops[0], (ast.In, ast.NotIn)) and "q_dict" in unparse(n.comparators[0]))
     rep.check(read == set(KEYS), "KEY-1", "_prepare_query reads Doc/Sec/Prop", str(sorted(read)), "_prepare_query tests keys %s" % sorted(read), pq.where)
     ff = prog.cls("FuzzyFinder")
     for m in ("_generate_parameters_pairs", "_generate_parameters_pairs_fuzzy"):
@@ -185,7 +187,14 @@ def run(prog, rep):
         ok = i2 is not None and (i2.cls is bp or any(call_name(x).endswith("__init__") for x in calls_in(i2.node)))
         rep.check(ok, "STATE-1", "%s initialises through the base __init__" % cname, "ok", "%s.__init__ does not run the base initialiser" % cname, c.module.path)
     gs = ff.lookup_method("_generate_parameters_subsets")
-    rep.check(any(isinstance(n, ast.Assign) and unparse(n.targets[0]) == "self._subsets" and isinstance(n.value, ast.List) for n in walk_no_nested(gs.node)),
+    def _fresh_list(v, fn=gs):
+        if isinstance(v, ast.List) and not v.elts:
+            return True
+        if isinstance(v, ast.Name):
+            defs = local_assignments(fn.node, v.id)
+            return len(defs) == 1 and isinstance(defs[0], ast.List) and not defs[0].elts
+        return False
+    rep.check(any(isinstance(n, ast.Assign) and unparse(n.targets[0]) == "%s._subsets" % gs.params[0] and _fresh_list(n.value) for n in walk_no_nested(gs.node)),
               "STATE-1", "FuzzyFinder resets _subsets per search", "ok", "_generate_parameters_subsets does not reset self._subsets", gs.where)
 
     # ------------------------------------------------------------------ DFS-1
@@ -196,8 +205,10 @@ def run(prog, rep):
     dfs = ff.lookup_method("_subsets_util_dfs")
     rep.saw_function(dfs)
     rec = [c for c in calls_in(dfs.node) if call_name(c) == "self._subsets_util_dfs"]
-    ok = len(rec) == 1 and [unparse(a) for a in rec[0].args] == ["i + 1", "path + [attrs[i]]", "res", "attrs"]
-    rep.check(ok, "DFS-1", "DFS recursion", "(i + 1, path + [attrs[i]], res, attrs)", "the DFS recursion is %s" % ([unparse(a) for a in rec[0].args] if rec else None),
+    dx = Expander(dfs, only_locations=True)
+    rargs = [dx.text(a) for a in rec[0].args] if rec else None
+    ok = len(rec) == 1 and rargs == ["i + 1", "path + [attrs[i]]", "res", "attrs"]
+    rep.check(ok, "DFS-1", "DFS recursion", "(i + 1, path + [attrs[i]], res, attrs)", "the DFS recursion is %s" % (rargs,),
               dfs.where, witness="combinations are missing or repeated")
     loops = [n for n in walk_no_nested(dfs.node) if isinstance(n, ast.For)]
     rep.check(len(loops) == 1 and unparse(loops[0].iter) == "range(index, len(attrs))", "DFS-1", "DFS loop range", "range(index, len(attrs))",
@@ -213,9 +224,14 @@ def run(prog, rep):
     rep.check(ok, "DFS-1", "duplicates decided on the attribute name", "x[1][0] == y[1][0]",
               "_check_duplicate_attrs compares %s" % [unparse(c) for c in cmps], cd.where,
               witness="sec(name:a, type:a): the most specific combination is dropped")
-    rep.check("self._subsets.sort(key=len, reverse=True)" in unparse(gs.node), "DFS-1", "most specific first", "sort(key=len, reverse=True)",
+    aliases = set(["%s._subsets" % gs.params[0]]) | set(unparse(n.value) for n in walk_no_nested(gs.node) if isinstance(n, ast.Assign)
+                                                          and unparse(n.targets[0]) == "%s._subsets" % gs.params[0] and isinstance(n.value, ast.Name))
+    sorts = [c for c in calls_in(gs.node) if isinstance(c.func, ast.Attribute) and c.func.attr == "sort" and unparse(c.func.value) in aliases]
+    rep.check(any(sorted(unparse(k0) if hasattr(k0, "arg") is False else "%s=%s" % (k0.arg, unparse(k0.value)) for k0 in c.keywords) == ["key=len", "reverse=True"] for c in sorts), "DFS-1", "most specific first", "sort(key=len, reverse=True)",
               "subsets are not sorted longest first", gs.where)
     oq = ff.lookup_method("_output_query_results")
-    ifs = [n for n in walk_no_nested(oq.node) if isinstance(n, ast.If) and unparse(n.test) == "triples"]
-    rep.check(len(ifs) == 1, "DFS-1", "combinations without a hit are omitted", "if triples:", "results are appended regardless of hits", oq.where)
+    og = build_cfg(oq)
+    adds = [n for n in og.nodes if n.kind == "stmt" and isinstance(n.ast, ast.AugAssign) and "triples" in [y.id for y in ast.walk(n.ast.value) if isinstance(y, ast.Name)]]
+    good = bool(adds) and all(known(og, n, lambda lf: "T" if isinstance(lf, ast.Name) and lf.id == "triples" else None, lambda a0: a0["T"], ["T"]) for n in adds)
+    rep.check(good, "DFS-1", "combinations without a hit are omitted", "results are added only when triples is non-empty", "results are appended regardless of hits", oq.where)
     rep.assume("regular expression semantics of python's re; SPARQL evaluation of rdflib")
